@@ -9,6 +9,8 @@ pub mod c10;
 pub mod c12;
 pub mod c13;
 pub mod c15;
+pub mod c16;
+pub mod c17;
 
 use crate::report::Run;
 
@@ -24,6 +26,8 @@ pub fn dispatch(run: &Run) -> bool {
         "C12" => c12::run(run),
         "C13" => c13::run(run),
         "C15" => c15::run(run),
+        "C16" => c16::run(run),
+        "C17" => c17::run(run),
         _ => return false,
     }
     true
